@@ -47,6 +47,12 @@ def dec_answer(p, t):
     return "ok s:" + C.hx(r) + ("" if strict == r else " strict-differs")
 
 
+# code points that text-handling code is known to treat specially (byte order mark, non-characters, replacement
+# character, separators, zero-width and bidi controls, private use, last code point)
+NOTORIOUS = [0xFEFF, 0xFFFE, 0xFFFF, 0xFFFD, 0x2028, 0x2029, 0x85, 0xA0, 0xAD, 0x200B, 0x200D, 0x200E, 0x202E, 0x2060,
+             0xE000, 0xF8FF, 0xFDD0, 0x1FFFE, 0x1FFFF, 0xE0001, 0xF0000, 0x10FFFD, 0x10FFFF, 0x1F600, 0x0130, 0x0131, 0x1E9E, 0xDF]
+
+
 def codepoints(tier, R):
     if tier == "thorough":
         return [c for c in range(0x110000) if not 0xD800 <= c <= 0xDFFF], True
@@ -54,6 +60,7 @@ def codepoints(tier, R):
     for b in (0x80, 0x800, 0x10000, 0xD800, 0xE000, 0x110000):
         cps.update(range(max(0, b - 3), min(0x110000, b + 3)))
     cps.update(R.randrange(0x110000) for _ in range(5000))
+    cps.update(NOTORIOUS)
     return sorted(c for c in cps if not 0xD800 <= c <= 0xDFFF), False
 
 
@@ -62,7 +69,9 @@ def rand_string(R):
     out = []
     for _ in range(n):
         k = R.random()
-        if k < 0.35:
+        if k < 0.04:
+            out.append(chr(R.choice(NOTORIOUS)))
+        elif k < 0.35:
             out.append(R.choice("abcXYZ019_.-~"))
         elif k < 0.65:
             out.append(R.choice(SPECIAL))
